@@ -429,7 +429,8 @@ def survivable(env, op, fn, fault, mode, pidkind="norm", point=0):
                 return ("_pssunos.terminal: unresolved fd link is skipped", "any")
             if base == "cwd" and fn == "os.readlink:path/cwd":
                 return ("_pssunos.cwd: unresolved link of a live process -> ''", "")
-            if base in ("threads", "num_threads") and fn == "query_process_thread":
+            if base in ("threads", "num_threads") and fn == "query_process_thread" and mode != "gone":
+                # (when the whole process is gone the method re-checks and reports it: _assert_alive())
                 return ("_pssunos.threads: thread gone in the meantime is skipped", "any")
             if base == "open_files" and fn.startswith("os.readlink:path/"):
                 return ("_pssunos.open_files: unresolved link is skipped", "any")
@@ -682,6 +683,28 @@ def special_cases(env):
         b4 = by.get(("nic0", 2), {}).get("broadcast")
         add("net_if_addrs:posix-broadcast", b4 is not None, "%s:net_if_addrs:broadcast-invented" % fl,
             "native layer said broadcast=None, front end reports %r" % (b4,), got)
+
+    # --- system-wide net_connections(): every native record, whichever pid owns it (0 included: idle/system process, kernel
+    #     sockets), becomes an sconn carrying that pid
+    if fl in ("windows", "openbsd", "netbsd", "sunos", "aix"):
+        from vf.checks.c20_stubs import AF_INET, SOCK_STREAM
+        est = env.const("MIB_TCP_STATE_ESTAB" if fl == "windows" else "TCPS_ESTABLISHED")
+        rows2 = [(2601 + i, AF_INET, SOCK_STREAM, ("10.0.0.1", 2611 + i), ("10.0.0.2", 2612), est, owner)
+                 for i, owner in enumerate((0, 77, 0, env.norm_pid))]
+        env.scenario(over={"net_connections": (lambda *a, **k: list(rows2))})
+        try:
+            got = ("ok", ps.net_connections("tcp4"))
+        except Exception as e_:  # noqa: BLE001
+            got = ("exc", type(e_).__name__, str(e_))
+        if got[0] != "ok":
+            add("net_connections:system-wide", True, "%s:net_connections:system-wide-raised" % fl, repr(got))
+        else:
+            recs = got[1]
+            badrec = [r for r in recs if type(r).__name__ != "sconn" or not hasattr(r, "pid")]
+            pids_ = sorted(getattr(r, "pid", "missing") for r in recs if hasattr(r, "pid"))
+            add("net_connections:system-wide", bool(badrec) or pids_ != [0, 0, 77, env.norm_pid],
+                "%s:net_connections:system-wide-record-of-pid-0" % fl,
+                "system-wide records %r; owners reported %r, native owners [0, 0, 77, %d]" % ([type(r).__name__ for r in recs], pids_, env.norm_pid))
 
     # --- POSIX name(): a 15-char (truncated) name is extended from cmdline[0]
     if fl != "windows":
